@@ -28,8 +28,8 @@ from harness.props import c03 as L
 
 META = {
     "id": "C11",
-    "technique": "Coq proof (regenerated inventory of every regular expression of the transpiler, lowered from CPython's own parse: flat => polynomially many backtracking paths on every text, nested quantifier => exponentially many; process model of folded list objects across parse() calls: stateless without a module-level memo, refuted with one, inventory of module-level state shows none; effect-instrumented model of _eval_const: whitelist of primitives by induction over expressions, reject-before-evaluate for unsupported nodes, exception kinds at the call sites, size bound of folded integers per operator and per expression) + extracted-model correspondence (result and primitive trace vs the real _eval_const under recording wrappers) + regex model vs re.fullmatch, session model vs firmware text + pump strings derived from every repeat of every pattern in every line / argument position, generic long runs, scale families by doubling (promptness relative to the stream's median, confirmed in a new process, growth series in the replay), sessions of scripts sharing literal texts vs the same script alone + audit-hook / canary / exception-kind observation of the real parse()+emit() on hostile scripts, real Python sources and noise (support only)",
-    "level_text": "Theorems C11_* (coq/Props/C11.v) are proved for all expressions and environments about the Gallina model of _eval_const and its call sites (cast / operator tables regenerated from parser.py on every run): whitelist of primitive operations, no evaluation below an unsupported node, error kinds, size of the folded integers (at most max(_MAX_CONST_BITS, widest operand + 1) bits per operator application, linear in the input for whole arithmetic expressions; 2**2**n is refused beyond the bound) and a linear number of operations; C11_regex_table_flat / _polynomial: every regular expression of the current source (Gen/Regexes.v, regenerated) is flat, hence has at most (length + 2)^size backtracking paths on every text, while the nested-quantifier shape has at least 2^n (C11_nested_quantifier_exponential, C11_port_fragment_exponential); C11_fold_session_stateless(_current_source), C11_parse_leaves_module_store, C11_fold_memo_refuted, C11_no_mutated_module_state: folded list objects cannot leak from one parse() to the next because no module-level object is mutated or handed out (Gen/SetSites.v). Open finding F-C11-blank-run-cubic: flat is polynomial, not linear - three adjacent blank-accepting runs make long white-space runs cubic. The clause about the Python process (no file, process, network or environment access; only ValueError/SyntaxError; termination) for arbitrary texts is outside the technique: it is observed with sys.addaudithook, canary files, exception kinds and a 30 s limit on generated hostile scripts, and labelled as support.",
+    "technique": "Coq proof (model of the function-variant memo in front of _parse_function with the sequence of body parses as its cost: looked up through the alias table no (function, call signature) is parsed twice, for every call graph - at most defs + distinct call signatures body parses; looked up by the raw signature a promoted helper is parsed again at every call, fan-out ^ depth on helper chains; regenerated inventory of every regular expression of the transpiler, lowered from CPython's own parse: flat => polynomially many backtracking paths on every text, nested quantifier => exponentially many; process model of folded list objects across parse() calls: stateless without a module-level memo, refuted with one, inventory of module-level state shows none; effect-instrumented model of _eval_const: whitelist of primitives by induction over expressions, reject-before-evaluate for unsupported nodes, exception kinds at the call sites, size bound of folded integers per operator and per expression) + extracted-model correspondence (result and primitive trace vs the real _eval_const under recording wrappers) + regex model vs re.fullmatch, session model vs firmware text + pump strings derived from every repeat of every pattern in every line / argument position, generic long runs, scale families by doubling (promptness relative to the stream's median, confirmed in a new process, growth series in the replay), sessions of scripts sharing literal texts vs the same script alone + variant model vs the recorded sequence of real _parse_function invocations on generated scripts of defs and calls, and the parsed-once statement evaluated on that sequence; depth families of helpers calling each other (37 families: promoted / unpromoted / annotated parameters, fan-out 1-3, several signatures and parameters, calls in conditions / loops / try / arguments / f-strings / the main loop, recursion, rings, forward calls, redefinition, lattices, nested blocks inside re-parsed bodies) measured by doubling the depth against a baseline-relative budget + audit-hook / canary / exception-kind observation of the real parse()+emit() on hostile scripts, real Python sources and noise (support only)",
+    "level_text": "Theorems C11_* (coq/Props/C11.v) are proved for all expressions and environments about the Gallina model of _eval_const and its call sites (cast / operator tables regenerated from parser.py on every run): whitelist of primitive operations, no evaluation below an unsupported node, error kinds, size of the folded integers (at most max(_MAX_CONST_BITS, widest operand + 1) bits per operator application, linear in the input for whole arithmetic expressions; 2**2**n is refused beyond the bound) and a linear number of operations; C11_regex_table_flat / _polynomial: every regular expression of the current source (Gen/Regexes.v, regenerated) is flat, hence has at most (length + 2)^size backtracking paths on every text, while the nested-quantifier shape has at least 2^n (C11_nested_quantifier_exponential, C11_port_fragment_exponential); C11_fold_session_stateless(_current_source), C11_parse_leaves_module_store, C11_fold_memo_refuted, C11_no_mutated_module_state: folded list objects cannot leak from one parse() to the next because no module-level object is mutated or handed out (Gen/SetSites.v). C11_variant_parsed_once / _parses_bounded / _parsed_only_when_called: for every script of defs and calls (Lang/VariantCost.v: return sums of parameters, literals and calls; recursion, forward calls, promotion of parameters to String) _ensure_function_variant parses no (function, call signature) twice, so the def / call machinery performs at most defs + distinct call signatures body parses; C11_variant_raw_lookup_refuted: not so when the fast path ignores the alias table. Open finding F-C11-blank-run-cubic: flat is polynomial, not linear - three adjacent blank-accepting runs make long white-space runs cubic. The clause about the Python process (no file, process, network or environment access; only ValueError/SyntaxError; termination) for arbitrary texts is outside the technique: it is observed with sys.addaudithook, canary files, exception kinds and a 30 s limit on generated hostile scripts, and labelled as support.",
     "level_note": "Trusted: Coq kernel, translator harness/gen/safecasts.py, extraction, OCaml driver; for the observed part CPython's audit events (open, exec, import, os.*, subprocess.*, socket.*) as the definition of 'access'. The theorems are about the model; the correspondence bounds its distance from parser.py.",
     "design_ref": "DESIGN.md section 4 C11",
 }
@@ -510,6 +510,14 @@ def run(ctx: C.Ctx):
     n_extra += O.scale_stream(ctx, stats, thorough)
     stats["seconds:scale-stream"] = round(_t.time() - t0, 1)
     t0 = _t.time()
+    # pieces that refer to each other: the function-variant memo (model vs the real _parse_function sequence) and the
+    # depth families of helper chains (time by doubling)
+    n_extra += O.variant_correspondence(ctx, stats, rng, 2500 if thorough else 500)
+    stats["seconds:variant-correspondence"] = round(_t.time() - t0, 1)
+    t0 = _t.time()
+    n_extra += O.variant_families(ctx, stats, thorough)
+    stats["seconds:variant-families"] = round(_t.time() - t0, 1)
+    t0 = _t.time()
 
     # ---------------- 4. 'never mutates its input-independent state': sessions of scripts that share literal texts
     n_extra += O.session_stream(ctx, stats, rng, thorough)
@@ -537,7 +545,7 @@ def run(ctx: C.Ctx):
     ctx.coverage.update({
         "evaluations": len(cases) + len(scripts) + n_extra,
         "distinct_nontrivial": len(distinct),
-        "rule": "0: the witnesses of the repaired findings. 1 (proof tie): the C03 expression stream (boundary expressions x environments incl. the values around the size bound + seeded random expressions) plus hostile expression forms, plus towers / giant shifts / wide products and seeded random integer expressions with exponents and shift counts around and beyond the size bound (size oracle max(bound, widest leaf) + nodes on every call-free result), each through the extracted instrumented model (result, primitive trace) and the real _eval_const under recording wrappers (operator module alias, _SAFE_CASTS values, max/min/abs in the parser's namespace) with sys.setprofile / sys.addaudithook; non-trivial = distinct (expression, environment) on which the real evaluator performed at least one primitive operation. 2 (observed, support): hostile expression forms (file / process / import / eval / attribute / lambda / comprehension / walrus / f-string payloads writing a canary file) in every argument position of the property's quantifier (pins, delays, conditions, loop bounds, list items, f-strings, decorators, defaults, device constructor keywords, expression statements), generated expressions in the same positions, real Python sources (the project's own files and standard-library modules), byte noise / shuffled / truncated / corrupted scripts, plus the formerly excluded regions (infinity / NaN / beyond-float-range values x every position incl. all int()/float() resolver sites, towers-shifts-products x positions, multi-line squaring chains, expressions 150..20000 levels deep x positions) - each through the real parse()+emit() with audit hook, canary check, exception kind and a 30 s limit; non-trivial = distinct hostile script that was accepted (firmware produced) - the ones where evaluating the payload would have been possible. 3 (promptness): the regenerated regex inventory - (a) model vs re.fullmatch on the minimal text of each pattern, its pumps and seeded edits of them; (b) pump scripts: for every unbounded repeat of every pattern x up to three feeds (characters of its set / the group's text / the inner set of a nested repeat) x continuations (the rest of the pattern, cut after the run, + one of ! ( [0] ' + 1' \\x01) at 28 characters (every place a line can stand: top level, while / if / else / for / def / try bodies, right-hand side; argument positions incl. quoted pin strings for the patterns applied to arguments) and at 1200 (quick) / 400, 1500, 6000 (thorough) characters, white-space runs cut to the guard; (c) 28 run alphabets x 41 statement frames (target(<run>()), h = target(<run>[0]), names, conditions, decorators, imports, except clauses ...) at 40 and 1500 characters; (d) 23 scale families (many lines / long lines / CRLF) at 250 .. 2000 (8000) by doubling. A script is slow when it needs more than max(5 s, 200 x the median of its stream) twice, the second time alone in a new process; the replay carries the series over growing runs. 4 (state): sessions - per literal text (lists with duplicates, nested, computed, tuples, strings, numbers) reader scripts (len, flash_pattern, glyph, index, loop bound, f-string) and mutator scripts (append / remove / += / item store / rebinding / aliases / inside if-while-for-def, under another variable name), transpiled in ONE process as readers, mutators, readers, shuffled mutators, mutators again, readers - every output must equal the script's output alone in a new process (sha256 / exception kind); on a difference every earlier script is tried as single predecessor: the replay is the two-script session; module-level objects of the three modules are digested before / after every parse (a change breaks the tie of Lang/FoldSession.v); random sessions of the model fragment through the extracted model vs the folded values read off the firmware.",
+        "rule": "0: the witnesses of the repaired findings. 1 (proof tie): the C03 expression stream (boundary expressions x environments incl. the values around the size bound + seeded random expressions) plus hostile expression forms, plus towers / giant shifts / wide products and seeded random integer expressions with exponents and shift counts around and beyond the size bound (size oracle max(bound, widest leaf) + nodes on every call-free result), each through the extracted instrumented model (result, primitive trace) and the real _eval_const under recording wrappers (operator module alias, _SAFE_CASTS values, max/min/abs in the parser's namespace) with sys.setprofile / sys.addaudithook; non-trivial = distinct (expression, environment) on which the real evaluator performed at least one primitive operation. 2 (observed, support): hostile expression forms (file / process / import / eval / attribute / lambda / comprehension / walrus / f-string payloads writing a canary file) in every argument position of the property's quantifier (pins, delays, conditions, loop bounds, list items, f-strings, decorators, defaults, device constructor keywords, expression statements), generated expressions in the same positions, real Python sources (the project's own files and standard-library modules), byte noise / shuffled / truncated / corrupted scripts, plus the formerly excluded regions (infinity / NaN / beyond-float-range values x every position incl. all int()/float() resolver sites, towers-shifts-products x positions, multi-line squaring chains, expressions 150..20000 levels deep x positions) - each through the real parse()+emit() with audit hook, canary check, exception kind and a 30 s limit; non-trivial = distinct hostile script that was accepted (firmware produced) - the ones where evaluating the payload would have been possible. 3 (promptness): the regenerated regex inventory - (a) model vs re.fullmatch on the minimal text of each pattern, its pumps and seeded edits of them; (b) pump scripts: for every unbounded repeat of every pattern x up to three feeds (characters of its set / the group's text / the inner set of a nested repeat) x continuations (the rest of the pattern, cut after the run, + one of ! ( [0] ' + 1' \\x01) at 28 characters (every place a line can stand: top level, while / if / else / for / def / try bodies, right-hand side; argument positions incl. quoted pin strings for the patterns applied to arguments) and at 1200 (quick) / 400, 1500, 6000 (thorough) characters, white-space runs cut to the guard; (c) 28 run alphabets x 41 statement frames (target(<run>()), h = target(<run>[0]), names, conditions, decorators, imports, except clauses ...) at 40 and 1500 characters; (d) 23 scale families (many lines / long lines / CRLF) at 250 .. 2000 (8000) by doubling. A script is slow when it needs more than max(5 s, 200 x the median of its stream) twice, the second time alone in a new process; the replay carries the series over growing runs. (e) pieces that refer to each other: 36 fixed helper chains + seeded random scripts of 1..7 defs (return sums of parameters, literals of the four type labels and calls of earlier / later / the same function with parameters or literals as arguments, arity 1..3) with top-level calls between and after the defs, through Lang/VariantCost.v (extracted) and the real parser under a wrapper around _parse_function: the ordered sequence (function, forced signature) must be equal, and no pair may occur twice; 37 depth families of helpers calling each other (see technique) at depth 3, 6, 12, 24 (thorough: .. 96): a family is not prompt when the time more than quintuples over each of the last two doublings AND exceeds 200 x (its own time at depth 3, at most the median family, at least 5 ms) x depth / 3, twice (the second time alone in a new process); the replay carries the series with the body-parse and block-parse counts. 4 (state): sessions - per literal text (lists with duplicates, nested, computed, tuples, strings, numbers) reader scripts (len, flash_pattern, glyph, index, loop bound, f-string) and mutator scripts (append / remove / += / item store / rebinding / aliases / inside if-while-for-def, under another variable name), transpiled in ONE process as readers, mutators, readers, shuffled mutators, mutators again, readers - every output must equal the script's output alone in a new process (sha256 / exception kind); on a difference every earlier script is tried as single predecessor: the replay is the two-script session; module-level objects of the three modules are digested before / after every parse (a change breaks the tie of Lang/FoldSession.v); random sessions of the model fragment through the extracted model vs the folded values read off the firmware.",
         "samples": [{"expr": hostile[0][0]}, {"script": scripts[0][1][len(HEADER):]}, {"script": scripts[len(pairs) // 2][1][len(HEADER):]}],
         "distribution": dict(sorted(stats.items())),
         "max_wall_s_per_script": max(walls) if walls else 0,
@@ -546,10 +554,10 @@ def run(ctx: C.Ctx):
         "regressed": sorted(regressed),
         "max_const_bits": max_bits,
         "unmodelled": ["the Python process executing parser.py / emitter.py (string building, the hand-written scanners): observed by audit hook + canaries + exception kinds + timing, support only - not proved; of the regex engine only the number of backtracking paths of the textbook search is modelled (sets restricted to ASCII + a flag, anchors and the one-character look-behind as empty matches) - the engine's own optimisations, its cost per path and non-regex loops are measured (pumps, scale families), not proved",
-                       "[paths] counts the successes of a (sub)pattern; the theorem bounds every flat sub-pattern, the total work of a failing match is a sum of such counts over prefixes (not stated as one theorem)",
+                       "of the def / call machinery only the memo in front of _parse_function and the one-return-sum fragment are modelled (the number of body parses is the cost; the cost of one body parse, statements other than return, annotations, redefinition of a name, keyword / default arguments, list-typed parameters are measured by the depth families, not proved)", "[paths] counts the successes of a (sub)pattern; the theorem bounds every flat sub-pattern, the total work of a failing match is a sum of such counts over prefixes (not stated as one theorem)",
                        "CPython's recursion limit and int->str digit limit (a RecursionError is turned into ValueError by parse(): observed on the deep stream, not modelled)", "IEEE infinities / NaN and the binary64 range (the model's floats are exact rationals): int(inf) / float(<huge int>) at the folding call sites fall back to the run-time expression - observed on the infinity stream in every numeric position, not modelled", "growth of folded strings across lines (s = s + s repeated: 2^n characters after n lines; ends in a caught MemoryError and the run-time expression, about 10 s under an 8 GB limit) - outside the three repaired findings, not generated", "target() reading the file (C12)", "ast.literal_eval fallbacks (flash_pattern, ultrasonic model): exercised by the hostile scripts, not modelled",
                        "environment reads (os.environ) have no audit event: only the canary / builtins profile would show them inside _eval_const"],
-        "trusted_base": C.COMMON_TRUSTED + ["harness/gen/safecasts.py (operator / cast / safe-name tables of parser.py)", "harness/gen/regexes.py (walks the ast of parser.py / emitter.py / ast.py / __init__.py / pio.py for re.* calls, evaluates the pattern expressions, cross-checks with the compiled module-level objects, lowers CPython's re._parser parse; fail-closed)", "harness/gen/setsites.py (module-level state inventory, shared with C10)", "wall-clock time of the implementation runner as the observation of 'promptly' (relative to the median of the same stream, confirmed in a second process)",
+        "trusted_base": C.COMMON_TRUSTED + ["harness/gen/safecasts.py (operator / cast / safe-name tables of parser.py)", "harness/gen/regexes.py (walks the ast of parser.py / emitter.py / ast.py / __init__.py / pio.py for re.* calls, evaluates the pattern expressions, cross-checks with the compiled module-level objects, lowers CPython's re._parser parse; fail-closed)", "harness/gen/setsites.py (module-level state inventory, shared with C10)", "the recording wrappers around parser._parse_function / _parse_simple_lines (module attributes, resolved at call time) as the observation of body parses", "wall-clock time of the implementation runner as the observation of 'promptly' (relative to the median of the same stream, confirmed in a second process)",
                                             "CPython audit events and sys.setprofile c_call events as the observation of 'access' and 'call' (support part)"],
         "support_only": "part 2 (process-level behaviour on arbitrary texts) is observation, not proof",
     })
@@ -568,6 +576,15 @@ def replay(data):
         print("last script alone:", {k: alone[k] for k in ("sha", "exc")})
         print("last script after the others, same process:", {k: together[-1][k] for k in ("sha", "exc")}, "module-level objects changed:", [r["changed"] for r in together])
         bad = (alone["sha"], alone["exc"]) != (together[-1]["sha"], together[-1]["exc"])
+        print("still failing" if bad else "no longer failing")
+        return 1 if bad else 0
+    if kind == "call-graph":
+        fam = O.V.families().get(case.get("family"))
+        r = O.variants_alone(case["text"], 60)
+        base = O.variants_alone(fam(3), 60) if fam else O.variants_alone(Q.PUMP_HEADER + "led.on()\n", 60)
+        budget = O.SLOW_REL * max(O.VAR_FLOOR, base["wall"]) * max(1, case.get("depth", 3)) / 3
+        print("real parse()+emit():", {k: r[k] for k in ("exc", "wall", "n_parses", "n_blocks")}, "- the same family at depth 3:", {k: base[k] for k in ("exc", "wall", "n_parses")}, "budget", round(budget, 2), "s")
+        bad = r["exc"] == "Timeout" or r["wall"] > budget or r["exc"] not in CLEAN or bool(r["audit"])
         print("still failing" if bad else "no longer failing")
         return 1 if bad else 0
     if kind and (kind.startswith(("regex-pump", "generic-run")) or kind == "scale") and "text" in case and not case["text"].endswith("...<cut>"):
